@@ -233,10 +233,24 @@ def check_instance(rep, tname, fd, N):
         return
     rep.ok("C19.loop", inst)
     stmts = [st for st in live_statements(fbody if fbody.get("kind") == "CompoundStmt" else {"inner": [fbody]})]
+    subst = {}
+    while len(stmts) > 1 and stmts[0].get("kind") == "DeclStmt":
+        # single-assignment temporaries are substituted into the statement that follows
+        mdecl = re.match(r"^\(decl \(var (\w+) (.*)\)\)$", canon(stmts[0]))
+        if not mdecl or modifies({"inner": stmts[1:]}, {mdecl.group(1)}):
+            break
+        subst[mdecl.group(1)] = mdecl.group(2)
+        stmts = stmts[1:]
     if len(stmts) != 1:
-        rep.fail("C19.body", inst, FILE, "loop body has %d statements, expected exactly one call" % len(stmts))
-        return
+        raise AnalysisBroken("C19 %s: loop body has %d statements (%s); only single-call bodies are recognised - re-confirm by reading %s" % (
+            inst, len(stmts), "; ".join(canon(x)[:50] for x in stmts)[:160], FILE))
     c = canon(stmts[0])
+    for name, val in subst.items():
+        c = re.sub(r"(?<![\w.])%s(?![\w])" % re.escape(name), val.replace("\\", "\\\\"), c)
+    prev = None
+    while prev != c:        # a copy of a freshly made tuple is that tuple
+        prev = c
+        c = re.sub(r"\(make array<[^()]*> (\(make array<[^()]*> [^()]*\))\)", r"\1", c)
     if stmts[0].get("kind") == "ForStmt" and N > 1:
         # second recognised formulation: a hand-written nest of N canonical loops, loop k over component k
         ivs = [i]
